@@ -74,14 +74,16 @@ func ruleV2Fallback(e *Engine, r *Reporter) {
 	r.Check(!leak, fname(fn)+" | non-terminal v2 error falls back to the default engine", pos, "every answer after a non-terminal v2 error comes from CheckCommand.Execute", "a response can be returned after v2Check failed with a non-terminal error without the default engine having run")
 	// detector consulted at both sites
 	nReason, nFromErr := 0, 0
-	eachInstr(fn, true, func(in ssa.Instruction) {
-		if isCallNamed(in, "CheckReason") {
-			nReason++
-		}
-		if isCallNamed(in, "CheckReasonFromV2Error") {
-			nFromErr++
-		}
-	})
+	for _, rf := range sameePackageRegion(fn, 2) { // the handler and the same-package helpers it calls
+		eachInstr(rf, true, func(in ssa.Instruction) {
+			if isCallNamed(in, "CheckReason") {
+				nReason++
+			}
+			if isCallNamed(in, "CheckReasonFromV2Error") {
+				nFromErr++
+			}
+		})
+	}
 	r.Check(nReason >= 2 && nFromErr >= 1, fname(fn)+" | breaking-change detector consulted", e.pos(fn.Pos()), fmt.Sprintf("CheckReason x%d, CheckReasonFromV2Error x%d", nReason, nFromErr), "the v2-success-denied-userset path or the fallback path no longer reports through the breaking-change detector")
 	// every exported Err…InvalidRequest sentinel of internal/check is known to the detector
 	det := e.Func("pkg/server/commands/v2breaking", "CheckReasonFromV2Error")
@@ -208,6 +210,12 @@ func ruleStrategyGuards(e *Engine, r *Reporter) {
 					}
 					// selected by name
 					sname := constVal(strategyConst[nm])
+					// table form: the handler is an entry of a name-keyed lookup table returned by this function; the
+					// obligations move to where the table is consulted
+					if okTable, detail := e.strategyTableEntryGuarded(in, fn, sname, preds, predCut(preds)); okTable != 0 {
+						r.Check(okTable > 0, key, e.instrPos(in), detail, detail)
+						continue
+					}
 					var cmpd []ssa.Value
 					byName := e.guardedAnyLevel(in, cutSpec{edge: func(f Fact) bool {
 						if f.Kind == "eq" && f.Positive {
@@ -769,4 +777,124 @@ func ruleSingleEdgeFromLoop(e *Engine, r *Reporter) {
 	if n == 0 {
 		blind("single-edge-not-last-wins: no edge-returning function found in internal/modelgraph")
 	}
+}
+
+
+// strategyTableEntryGuarded: `in` creates a handler value that is stored under the constant strategy name in a map
+// the enclosing function returns (a name-keyed dispatch table).  Returns 0 when this is not that shape; otherwise
+// +1/-1 for "every consultation of the table uses a name that is a member of the offered-strategies map (or comes
+// from its Select), and that name is only offered under the predicate" holding or not.
+func (e *Engine) strategyTableEntryGuarded(in ssa.Instruction, fn *ssa.Function, sname string, preds []string, pcut cutSpec) (int, string) {
+	mc, ok := in.(*ssa.MakeClosure)
+	if !ok || mc.Referrers() == nil {
+		return 0, ""
+	}
+	inTable := false
+	var vals []ssa.Value
+	vals = append(vals, mc)
+	for _, ref := range *mc.Referrers() { // the closure may be converted to a named func type first
+		if ct, ok := ref.(*ssa.ChangeType); ok {
+			vals = append(vals, ct)
+		}
+	}
+	for _, v := range vals {
+		if v.Referrers() == nil {
+			continue
+		}
+		for _, ref := range *v.Referrers() {
+			if mu, ok := ref.(*ssa.MapUpdate); ok && mu.Value == v {
+				if s, ok := constString(mu.Key); ok && s == sname {
+					inTable = true
+				}
+			}
+		}
+	}
+	if !inTable || fn.Signature.Results().Len() != 1 {
+		return 0, ""
+	}
+	if _, isMap := fn.Signature.Results().At(0).Type().Underlying().(*types.Map); !isMap {
+		return 0, ""
+	}
+	memberCut := cutSpec{edge: func(f Fact) bool {
+		if f.Kind != "bool" || !f.Positive {
+			return false
+		}
+		ex, ok := unwrap(f.X).(*ssa.Extract)
+		if !ok || ex.Index != 1 {
+			return false
+		}
+		lk, ok := ex.Tuple.(*ssa.Lookup)
+		return ok && lk.CommaOk && isPlanMap(lk.X.Type())
+	}}
+	fromSelect := func(x ssa.Value) bool {
+		if u, ok := unwrap(x).(*ssa.UnOp); ok {
+			if fa, ok := u.X.(*ssa.FieldAddr); ok {
+				x = fa.X
+			}
+		}
+		return derivesFrom(x, func(v ssa.Value) bool {
+			c, ok := v.(*ssa.Call)
+			if !ok {
+				return false
+			}
+			o := calleeObj(c)
+			if o == nil || o.Name() != "Select" {
+				return false
+			}
+			for _, a := range c.Call.Args {
+				if isPlanMap(a.Type()) {
+					return true
+				}
+			}
+			return false
+		})
+	}
+	sites := e.allCallSites(fn)
+	if len(sites) == 0 {
+		return -1, "the strategy table is never consulted through a resolvable call"
+	}
+	lookups := 0
+	for _, cs := range sites {
+		cv, ok := cs.(ssa.Value)
+		if !ok || cv.Referrers() == nil {
+			return -1, "the strategy table escapes at " + e.instrPos(cs)
+		}
+		caller := topLevel(cs.Parent())
+		for _, ref := range *cv.Referrers() {
+			lk, ok := ref.(*ssa.Lookup)
+			if !ok || lk.X != cv {
+				return -1, "the strategy table is used other than by a lookup at " + e.instrPos(cs)
+			}
+			lookups++
+			if !(e.guardedAnyLevel(lk, memberCut) || fromSelect(lk.Index)) {
+				return -1, "the table is consulted at " + e.instrPos(lk) + " with a name that is neither a member of the offered-strategies map nor its Select result: the handler for " + sname + " can run where " + strings.Join(preds, "/") + " was not established"
+			}
+		}
+		// the name is only offered under the predicate in that caller
+		offers, offersOK := 0, true
+		for _, g := range e.Fns {
+			if topLevel(g) != caller {
+				continue
+			}
+			eachInstr(g, false, func(i2 ssa.Instruction) {
+				mu, ok := i2.(*ssa.MapUpdate)
+				if !ok || !isPlanMap(mu.Map.Type()) {
+					return
+				}
+				if s, ok := constString(mu.Key); ok && s == sname {
+					offers++
+					if !e.guardedAnyLevel(i2, pcut) {
+						offersOK = false
+					}
+				}
+			})
+		}
+		if offers == 0 || !offersOK {
+			return -1, fmt.Sprintf("in %s the strategy name %q is offered %d time(s), not always behind %s", fname(caller), sname, offers, strings.Join(preds, "/"))
+		}
+	}
+	if lookups == 0 {
+		return -1, "the strategy table is never looked up"
+	}
+	return 1, fmt.Sprintf("entry %q of a dispatch table; %d consultation(s), each with an offered name; the name is offered only behind %s", sname, lookups, strings.Join(preds, "/"))
 }
